@@ -19,6 +19,8 @@ from fractions import Fraction
 ROOT = os.path.dirname(os.path.dirname(os.path.abspath(__file__)))
 REPO = os.environ.get("VERIF_REPO", "/repo")
 OUT = os.path.join(ROOT, "coq", "Generated", "GridGen.v")
+OUT_R = os.path.join(ROOT, "coq", "Generated", "GridGenR.v")
+RAW_R = None
 SRC_G = "ribs/archives/_grid_archive.py"
 SRC_S = "ribs/archives/_sliding_boundaries_archive.py"
 
@@ -52,6 +54,25 @@ def arith(e, names, env):
             if isinstance(e.op, cls):
                 return "(%s %s %s)" % (arith(e.left, names, env), s, arith(e.right, names, env))
     _fail(e, "unsupported arithmetic")
+
+
+ENV_R = {"_dims": "D", "_lower_bounds": "lo", "_epsilon": "eps", "_interval_size": "w"}
+ROUND_OF = ((ast.Sub, "-", "rs"), (ast.Mult, "*", "rm"), (ast.Add, "+", "ra"), (ast.Div, "/", "rq"))
+
+
+def arith_r(e):
+    """the same expression over R with one rounding per arithmetic operation (rs: subtraction, rm: multiplication, ra: addition,
+    rq: division), for Model/GridRound.v; only names -- a literal constant in the index expression is a broken tie here"""
+    if isinstance(e, ast.Name) and e.id == "measures":
+        return "m"
+    a = self_attr(e)
+    if a in ENV_R:
+        return ENV_R[a]
+    if isinstance(e, ast.BinOp):
+        for cls, sym, rnd in ROUND_OF:
+            if isinstance(e.op, cls):
+                return "(%s (%s %s %s))" % (rnd, arith_r(e.left), sym, arith_r(e.right))
+    _fail(e, "unsupported arithmetic (rounded reading)")
 
 
 def find_method(tree, cls, meth):
@@ -94,6 +115,8 @@ def grid(tree):
         _fail(a, "first statement must assign the raw index expression")
     var = a.targets[0].id
     raw = arith(a.value, {"measures": "m"}, ENV_G)
+    global RAW_R
+    RAW_R = arith_r(a.value)
     # var = np.clip(var, 0, self._dims - 1).astype(np.int32)
     v = b.value if isinstance(b, ast.Assign) and isinstance(b.targets[0], ast.Name) and b.targets[0].id == var else None
     good = (v is not None and isinstance(v, ast.Call) and isinstance(v.func, ast.Attribute) and v.func.attr == "astype" and len(v.args) == 1
@@ -168,15 +191,20 @@ def generate():
     except Exception as e:  # noqa
         st["error"] = repr(e)
         return st
+    text_r = ("(** GENERATED by harness/py2v_grid.py from the current pyribs source (%s: GridArchive.index_of) on every run -- do not edit.\n"
+              "    The raw index expression read over R with one rounding per arithmetic operation, in the source's evaluation order;\n"
+              "    Refine/GridRoundRefine.v ties it to Model/GridRound.v. *)\nFrom Coq Require Import Reals.\nOpen Scope R_scope.\n\n"
+              "Definition gen_grid_raw_r (rs rm ra rq : R -> R) (D lo eps w m : R) : R := %s.\n" % (SRC_G, RAW_R))
     try:
-        old = open(OUT).read() if os.path.exists(OUT) else None
-        if old != text:
-            os.makedirs(os.path.dirname(OUT), exist_ok=True)
-            tmp = OUT + ".tmp%d" % os.getpid()
-            with open(tmp, "w") as f:
-                f.write(text)
-            os.replace(tmp, OUT)
-            st["written"] = True
+        for path, body in ((OUT, text), (OUT_R, text_r)):
+            old = open(path).read() if os.path.exists(path) else None
+            if old != body:
+                os.makedirs(os.path.dirname(path), exist_ok=True)
+                tmp = path + ".tmp%d" % os.getpid()
+                with open(tmp, "w") as f:
+                    f.write(body)
+                os.replace(tmp, path)
+                st["written"] = True
     except OSError as e:
         st["ok"], st["error"] = False, "cannot write %s: %r" % (OUT, e)
     return st
@@ -187,7 +215,7 @@ STATUS = generate()
 
 def report(rep):
     rep.extra["source_fragments"] = {"translator": "harness/py2v_grid.py", "source": [SRC_G, SRC_S], "ok": STATUS["ok"], "sha256_of_ast": STATUS["sha"],
-                                     "refinement": "coq/Refine/GridRefine.v"}
+                                     "refinement": "coq/Refine/GridRefine.v, coq/Refine/GridRoundRefine.v"}
     if not STATUS["ok"]:
         rep.violation("the translator cannot read the current source of GridArchive.index_of / SlidingBoundariesArchive.index_of any more (fail-closed): %s" % STATUS["error"],
                       {"kind": "translation", "broken": "harness/py2v_grid.py", "error": STATUS["error"]}, False, {"kind": "translation"})
